@@ -22,7 +22,8 @@ func init() {
 		Explanation: "Linearizability and eventual delivery need the semantics of the Atomix primitives and are declined. Decided for the five stores (v2 transaction/proposal/configuration, v3 transaction/configuration): (1) every update/remove of a primitive entry is conditional on the version read — IfVersion(primitive.Version(x.Version)) of the record being written, or IfVersion(entry.Version) of the entry just read under the same key; entries are created with Insert/Append only; " +
 			"(2) Version, log Index and Revision of the records are assigned only in their store package and only from the primitive's entry (Revision: = 1 on create, ++ on update); (3) in every Watch the listener is registered (watcher map insert under the lock, or the primitive's Events stream opened) before any snapshot read that feeds the replay; " +
 			"(4) no path of a watch goroutine closes the subscriber's channel twice (deferred closes included) or sends on it after closing it; (5) behind a shared dispatcher every send on the subscriber's channel is a select case next to ctx.Done(), so that a departed subscriber cannot block the dispatcher and with it every other watcher; (6) every lock is released on all paths and nothing is sent on a channel while the store mutex is held." +
-			" Also: nested end of stream does not return (C15.17); close on every exit of a watch goroutine that closes on some (C15.18).",
+			" Also: nested end of stream does not return (C15.17); close on every exit of a watch goroutine that closes on some (C15.18)." +
+			" Also: C15.19 the dispatcher never skips a watcher.",
 		Declined: []string{"linearizability of the primitives", "that every event is eventually shown (needs Atomix semantics)"},
 		Run:      runC15,
 		Witness:  []WitnessTarget{{pkgStoreTxV2, nil}, {pkgStorePropV2, nil}, {pkgStoreCfgV2, nil}, {pkgStoreTxV3, nil}, {pkgStoreCfgV3, nil}},
@@ -31,6 +32,7 @@ func init() {
 
 func runC15(c *engine.Ctx, tier string) {
 	listVisitsEveryCollection(c)
+	dispatcherNeverDrops(c)
 	for _, rel := range storePkgs {
 		closeOnEveryExit(c, "C15.18/"+strings.TrimPrefix(rel, "pkg/store/"), rel)
 	}
@@ -1539,6 +1541,97 @@ func closeOnEveryExit(c *engine.Ctx, id, rel string) {
 						Msg: "this exit of the watch goroutine does not close " + ch + " although its other exits do: the subscriber waits for ever on a watch that has ended", Found: c.RenderConds(engine.CondsBefore(x.p, len(x.p.Events)-1))})
 				}
 			}
+		}
+	}
+}
+
+// dispatcherNeverDrops: C15.19 (seed C15-r51). The dispatcher of a store hands every event to every registered
+// watcher: a send to a watcher's channel inside a `select` that can give up (a timer, a default) drops the event for
+// that watcher, and nothing sends it again — a slow watcher never sees the latest state.
+func dispatcherNeverDrops(c *engine.Ctx) {
+	o := c.Custom("C15.19", "K-shape(dispatch send)", "in the store packages, a send inside a loop over a watcher registry (a map of channels held in a receiver field, or a copy of it) is not an arm of a select that has a default arm or a timer arm (time.After / Timer.C)",
+		"a watcher is eventually shown the latest state of every record: the dispatcher may block, it may not skip")
+	defer o.Done(3)
+	for _, rel := range storePkgs {
+		pkg := c.P.Pkg(rel)
+		if pkg == nil {
+			continue
+		}
+		info := pkg.TypesInfo
+		for _, fi := range c.P.FuncsOf(pkg) {
+			var stack []ast.Node
+			ast.Inspect(fi.Decl.Body, func(n ast.Node) bool {
+				if n == nil {
+					stack = stack[:len(stack)-1]
+					return true
+				}
+				stack = append(stack, n)
+				send, ok := n.(*ast.SendStmt)
+				if !ok {
+					return true
+				}
+				// the channel is the element of a ranged map/slice of channels
+				id, ok := ast.Unparen(send.Chan).(*ast.Ident)
+				if !ok {
+					return true
+				}
+				obj := info.Uses[id]
+				inRegistryLoop := false
+				var sel *ast.SelectStmt
+				for i := len(stack) - 2; i >= 0; i-- {
+					switch a := stack[i].(type) {
+					case *ast.SelectStmt:
+						if sel == nil {
+							sel = a
+						}
+					case *ast.RangeStmt:
+						if v, ok := a.Value.(*ast.Ident); ok && info.Defs[v] == obj {
+							if t := info.TypeOf(a.X); t != nil {
+								switch u := t.Underlying().(type) {
+								case *types.Map:
+									_, inRegistryLoop = u.Elem().Underlying().(*types.Chan)
+								case *types.Slice:
+									_, inRegistryLoop = u.Elem().Underlying().(*types.Chan)
+								}
+							}
+						}
+					}
+				}
+				if !inRegistryLoop {
+					return true
+				}
+				o.Site(c.P.Pos(send.Pos()) + " dispatch send in " + fi.Name())
+				o.Eval(1)
+				if sel == nil {
+					return true
+				}
+				for _, cl := range sel.Body.List {
+					cc := cl.(*ast.CommClause)
+					bad := ""
+					if cc.Comm == nil {
+						bad = "a default arm"
+					} else {
+						ast.Inspect(cc.Comm, func(m ast.Node) bool {
+							if call, ok := m.(*ast.CallExpr); ok {
+								if f := types.ExprString(call.Fun); f == "time.After" || f == "time.Tick" {
+									bad = "a " + f + " arm"
+								}
+							}
+							if se, ok := m.(*ast.SelectorExpr); ok && se.Sel.Name == "C" {
+								if t := info.TypeOf(se.X); t != nil && strings.Contains(t.String(), "time.Timer") {
+									bad = "a timer arm"
+								}
+							}
+							return true
+						})
+					}
+					if bad != "" {
+						o.Fail(&engine.Violation{Key: fi.Name() + "|dispatch send can be skipped", Pos: c.P.Pos(send.Pos()), Func: fi.Name(),
+							Msg: "the dispatcher's send to a watcher's channel is an arm of a select with " + bad + ": the event is dropped for that watcher and never sent again"})
+					}
+				}
+				return true
+			})
 		}
 	}
 }
